@@ -188,10 +188,18 @@ where
 }
 
 pub fn first_token(lit: &[u8]) -> Option<Token<'_>> {
-    match Tokenizer::new_params(lit).next() {
-        Some(Ok(t)) if t.is_data() => Some(t),
+    // a panic inside the lexer is data, not a harness failure: it is reported by `lexer_panicked`
+    match catch(std::panic::AssertUnwindSafe(|| Tokenizer::new_params(lit).next())) {
+        Ok(Some(Ok(t))) if t.is_data() => Some(t),
         _ => None,
     }
+}
+/// did lexing this literal panic?  (rows for such a literal carry the panic marker as their observation)
+pub fn lexer_panicked(lit: &[u8]) -> bool {
+    catch(std::panic::AssertUnwindSafe(|| { let _ = Tokenizer::new_params(lit).next(); })).is_err()
+}
+fn shape_kind(lit: &[u8]) -> &'static str {
+    if lit.first() == Some(&b'#') { "hex" } else { "num" }
 }
 
 /// [+-] (digits [. [digits]] | . digits) [E [+-] digits] and nothing else (IEEE 488.2 NRf, no white space)
@@ -274,6 +282,12 @@ macro_rules! int_row {
 
 fn int_rows_for(lit: &[u8], types: &[&str], out: &mut Out) {
     let Some(t) = first_token(lit) else {
+        if lexer_panicked(lit) {
+            for ty in types {
+                out.put(&json!({"t": "int", "ty": ty, "kind": shape_kind(lit), "lit": bytes_json(lit), "val": [], "src": lossy(lit), "obs": obs_panic(), "via": "lexer"}));
+            }
+            return;
+        }
         // a non-decimal literal the lexer itself refuses (too wide for its u64): the conversion's
         // result for every type is that error; the specification works out the value from the text
         let radix = match lit.get(1) { Some(b'H' | b'h') => 16, Some(b'Q' | b'q') => 8, Some(b'B' | b'b') => 2, _ => 0 };
@@ -454,8 +468,15 @@ fn c07_literals(rng: &mut Rng, thorough: bool) -> Vec<(Vec<u8>, Vec<&'static str
             long.push(format!("1{}", z(n)));
             long.push(format!("{}.5", "1".repeat(n)));
         }
-        for e in ["1E000003", "1e+000002", "25E-0000001", "100E-000000000002", "1E00000", "-1.5e0000000001", "2E32001", "2E-32001", "1E65536", "1E99999"] {
+        for e in ["1E000003", "1e+000002", "25E-0000001", "100E-000000000002", "1E00000", "-1.5e0000000001", "2E32001", "2E-32001", "1E65536", "1E99999",
+                  "1E2147483647", "1E2147483648", "1E-4294967296", "1.5e99999999999999999999", "0E2147483648", "255.0", "2.55E2", "2550E-1", "0.255E3", "255.",
+                  "65535.0", "6.5535E4", "127.0", "-128.0", "1.28E2", "32767.0", "4294967295.0", "2147483647.0", "-2147483648.0"] {
             long.push(e.to_string());
+        }
+        for n in [250usize, 254, 255, 256, 257, 300, 512] {
+            long.push(format!("#B{}101010", z(n)));
+            long.push(format!("#H{}fF", z(n)));
+            long.push(format!("#q{}377", z(n)));
         }
         for s in long {
             out.push((s.into_bytes(), all_types.clone()));
@@ -507,6 +528,12 @@ fn obs_float(cls_info: FInfo, ismax: bool, ismin: bool) -> Value {
 
 fn float_rows_for(lit: &[u8], out: &mut Out) {
     let Some(t) = first_token(lit) else {
+        if lexer_panicked(lit) {
+            for w in [32, 64] {
+                out.put(&json!({"t": "flt", "w": w, "kind": shape_kind(lit), "lit": bytes_json(lit), "src": lossy(lit), "obs": obs_panic(), "via": "lexer"}));
+            }
+            return;
+        }
         if is_nrf(lit) {
             if let Some(Err(e)) = Tokenizer::new_params(lit).next() {
                 for w in [32, 64] {
@@ -677,7 +704,10 @@ pub fn rows_c08(args: &[String]) -> i32 {
             lits.push(format!("0.{}7", z(n)));
             lits.push(format!("{}.{}5", "9".repeat(n), z(n)));
         }
-        for e in ["1E000003", "1e+000002", "25E-0000001", "1E00000", "-1.5e0000000001", "2E32001", "2E-32001", "1E65536", "-1E99999"] {
+        for e in ["1E000003", "1e+000002", "25E-0000001", "1E00000", "-1.5e0000000001", "2E32001", "2E-32001", "1E65536", "-1E99999",
+                  "1E2147483647", "1E2147483648", "1E-4294967296", "1.5e99999999999999999999", "-2E-99999999999999999999",
+                  // the magnitudes the response formatter uses as NaN / infinity sentinels are ordinary finite values as PROGRAM data
+                  "9.9E+37", "99e36", "0.99e38", "-9.9e37", "9.91E37", "991E35", "-9.91e+37", "9.9E37", "9.91E+37"] {
             lits.push(e.to_string());
         }
     }
@@ -700,6 +730,7 @@ pub fn rows_c08(args: &[String]) -> i32 {
     }
     // keywords, near misses and other element types through the float conversion
     for k in ["INF", "INFinity", "inf", "infinity", "NINF", "ninfinity", "NINFINITY", "NAN", "nan", "NaN", "MAX", "MAXimum", "max", "MIN", "minimum", "MINIMUM",
+              "XINF", "MINF", "AINFINITY", "xinfinity", "NNAN", "XNAN", "NNINF", "INNF", "IINF", "NINFF", "XMAX", "MMIN", "MAXX", "ANAN",
               "INFI", "INFINIT", "NINFI", "NA", "NANN", "MAXI", "MI", "DEF", "INF1", "INFINITY1", "NINF1", "NAN1", "MAX1", "MINIMUM1", "MIN1", "INF2", "MAX0", "ABC", "ON", "1 V", "1V", "'1'", "#11A", "(1)", "#HFF", "#Q7", "#B1"] {
         float_rows_for(k.as_bytes(), &mut out);
     }
@@ -790,7 +821,7 @@ where
         let (kind, _) = kind_of(&t);
         for (ci, (min, max, def)) in configs.iter().enumerate() {
             // several ways of configuring the builder (call order is part of the configuration space)
-            for order in 0..8u32 {
+            for order in 0..9u32 {
                 // orders 4 and 5 start from NumericValue::build(): the bound that is not set is the type's own
                 let (emin, emax) = match order {
                     4 => (T::tmin(), *max),
@@ -829,7 +860,10 @@ where
                                 (6, None) => NumericBuilder::new(nv.map(|v| v), *max, *min).finish(),
                                 // 7: the default is configured twice; the last call counts
                                 (7, Some(d)) => b.default(*min).default(*max).default(*d).finish(),
-                                (_, None) => b.max(*min).max(*max).finish(),
+                                (7, None) => b.max(*min).max(*max).finish(),
+                                // 8: the documented shorthand finish_with(max, min) (no default)
+                                (8, Some(d)) => nv.build().max(*max).min(*min).default(*d).finish(),
+                                (_, None) => nv.finish_with(*max, *min),
                                 _ => unreachable!(),
                             };
                             (variant, tv, fin)
@@ -875,6 +909,7 @@ pub fn rows_c17(args: &[String]) -> i32 {
     let kws: Vec<&[u8]> = vec![b"MAX", b"MAXimum", b"max", b"maximum", b"MaXiMuM", b"MIN", b"MINimum", b"min", b"minimum", b"DEF", b"DEFault", b"def", b"default",
                                b"UP", b"up", b"Up", b"DOWN", b"down", b"MAXI", b"MAXIMU", b"MAXIMUMM", b"MA", b"MINI", b"DEFA", b"DEFAUL", b"DE", b"U", b"UPP", b"DOW", b"DOWNN",
                                b"MAX1", b"DEFault1", b"UP1", b"ABC", b"ON",
+                               b"DOWNx", b"DOWNward", b"DOWN_", b"UPx", b"UP_", b"UPward", b"MAXimumx", b"DEFaultx", b"MINx", b"MAX_", b"DEFa", b"MINimumm", b"Dx", b"Ux",
                                b"'MAX'", b"\"def\"", b"'UP'", b"\"MINimum\"", b"#13MAX", b"(MAX)", b"(DEF)"];
     let ints: Vec<&[u8]> = vec![b"0", b"1", b"-1", b"9", b"10", b"11", b"-10", b"-11", b"100", b"101", b"-100", b"-101", b"99", b"5", b"5.4", b"5.6", b"10.4", b"10.6",
                                 b"255", b"256", b"-129", b"#HA", b"#H65", b"1 V", b"'5'", b"(5)", b"#11A", b"1e3", b"32767", b"-32768", b"32768",
